@@ -13,6 +13,6 @@ Extraction "c08.ml"
   Model.TagReadAny.t2_cmds_max Model.TagReadAny.t1_cmds_max Model.TagReadAny.t2_demand_bound
   Model.T2T.t2_read Model.T1T.t1_read
   Model.TagReadAnyB.t3_session Model.TagReadAnyB.t4_session Model.TagReadAnyB.t3_rsp_any
-  Model.TagReadAnyB.run_stream_any Model.IsoDep.pcd_start Model.IsoDep.run_stream
+  Model.TagReadAnyB.run_stream_any Model.TagReadAnyB.dep_exchange Model.TagReadAnyB.run_script_any Model.IsoDep.pcd_start Model.IsoDep.run_stream
   Model.TagLoad.t2_read_responses Model.TagLoad.t1_read_responses Model.TagLoad.t2_wire_max Model.TagLoad.t1_wire_max.
 Cd "../../coq".
